@@ -42,3 +42,16 @@ package reference
 //@ contract (reference.Target).IsConvertibleToType (ref, typ) (result)
 //@   ensures [C08,C11] implies(typ == cty.NilType, result == (ref.Type == cty.NilType))
 //@   ensures [C08,C11] implies(typ != cty.NilType && ref.Type == cty.NilType, !result)
+
+// ---- C08/C11: a target satisfies a reference constraint only if BOTH its scope and its type fit.
+//@ contract (reference.Target).MatchesConstraint (target, ref) (ok)
+//@   ensures [C08,C11] ok == (target.MatchesScopeId(ref.OfScopeId) && target.IsConvertibleToType(ref.OfType))
+
+// ---- C11: the declarations at a position. First pass: exactly the targets whose range contains it; second
+// ---- pass: every one of those contributes (itself when the position is on its definition or it has nothing
+// ---- nested there, otherwise its nested answer) - none ends the scan for the others.
+//@ contract (reference.Targets).InnermostAtPos (refs, file, pos) (result, ok)
+//@   loop 1 iter [C11] (len(matchingTargets) == old(len(matchingTargets)) + 1) == (target.RangePtr != nil && target.RangePtr.Filename == file && target.RangePtr.ContainsPos(pos))
+//@   loop 2 iter [C11] len(innermostTargets) >= 1
+//@   ensures [C11] ok == (len(result) > 0)
+//@   ensures [C11,name:result-is-the-accumulated-list] len(result) == len(innermostTargets) && implies(len(result) > 0, result[0] == innermostTargets[0])
